@@ -204,6 +204,13 @@ def run(run, ix, tier):
     check_setters(run, ix)
     # ---- A-R7 ------------------------------------------------------------------
     check_generators(run, ix)
+    check_relative_changes(run, ix)
+    # A-R10: a function that changes the precision of ANOTHER context (fp computing in the global mp) snapshots THAT
+    # context's precision and restores it in a finally clause: rule X-R6 of the C38 module (local aliases followed)
+    from ..report import SubRun
+    from . import c38
+    run.rule('A-R10', floor=1, desc='the precision of a borrowed context is saved from and restored to that context')
+    c38.check_foreign_cell(SubRun(run, keep=('X-R6',), rename=lambda r: 'A-R10'), ix)
 
 
 # ---------------------------------------------------------------------------
@@ -794,3 +801,62 @@ def check_rule_object_steps(run, ix):
                                  'length) leaves the caller at the rule\'s working precision', line=f.lineno))
     if n < 6:
         raise AnalysisError('only %d rule-object steps found' % n)
+
+
+def check_relative_changes(run, ix):
+    """A-R9.  A relative change `ctx.prec += e ... ctx.prec -= e` gives the entry value back only if the amount is an
+    INTEGER: the setter truncates with int(), so 53 + 10.5 is stored as 63 and 63 - 10.5 as 52 -- every call then
+    leaves the precision one bit lower.  Decided: the amount of every augmented assignment to .prec / .dps is an
+    integer expression (int literals, mag(), int(), len(), bitcount(), //, +, -, *, <<, >>, max / min of such, names
+    all of whose definitions are such); a true division or a float constant in it is the finding."""
+    run.rule('A-R9', floor=8, desc='relative precision changes add and subtract integers')
+
+    def integral(e, f, seen):
+        if isinstance(e, ast.Constant):
+            return isinstance(e.value, int) and not isinstance(e.value, bool)
+        if isinstance(e, ast.Name):
+            if e.id in seen:
+                return True
+            defs = [a.value for a in _walk_own(f.node) if isinstance(a, ast.Assign) and
+                    any(isinstance(t, ast.Name) and t.id == e.id for t in a.targets)]
+            defs += [a.value for a in _walk_own(f.node) if isinstance(a, ast.AugAssign) and
+                     isinstance(a.target, ast.Name) and a.target.id == e.id and
+                     not isinstance(a.op, ast.Div)]
+            if any(isinstance(a, ast.AugAssign) and isinstance(a.target, ast.Name) and a.target.id == e.id and
+                   isinstance(a.op, ast.Div) for a in _walk_own(f.node)):
+                return False
+            if not defs:
+                return True          # parameter / outer name: documented integer amounts (extraprec, n, ...)
+            return all(integral(d, f, seen | {e.id}) for d in defs)
+        if isinstance(e, ast.BinOp):
+            if isinstance(e.op, ast.Div):
+                return False
+            if isinstance(e.op, (ast.Add, ast.Sub, ast.Mult, ast.FloorDiv, ast.LShift, ast.RShift, ast.Mod, ast.Pow)):
+                return integral(e.left, f, seen) and integral(e.right, f, seen)
+            return False
+        if isinstance(e, ast.UnaryOp):
+            return integral(e.operand, f, seen)
+        if isinstance(e, ast.Call):
+            fn = norm(e.func).split('.')[-1]
+            if fn in ('int', 'mag', 'len', 'bitcount', 'round', 'ceil', 'floor', 'dps_to_prec', 'prec_to_dps',
+                      '_mag_if_small', 'to_int'):
+                return True
+            if fn in ('max', 'min', 'abs'):
+                return all(integral(a, f, seen) for a in e.args)
+            return True              # other calls: not judged (not a division by construction)
+        if isinstance(e, ast.IfExp):
+            return integral(e.body, f, seen) and integral(e.orelse, f, seen)
+        return True
+    for f in ix.all_funcs():
+        if '/tests/' in f.file:
+            continue
+        for x in _walk_own(f.node):
+            if isinstance(x, ast.AugAssign) and isinstance(x.target, ast.Attribute) and x.target.attr in ('prec', 'dps') \
+                    and isinstance(x.op, (ast.Add, ast.Sub)):
+                if integral(x.value, f, frozenset()):
+                    run.ok('A-R9', '%s: `%s` changes the precision by an integer' % (f.qualname, norm(x)))
+                else:
+                    run.fail(Finding('A-R9', f.file, f.qualname, norm(x), 'the amount `%s` of this relative precision '
+                                     'change is not an integer (a true division or a float enters it): the setter '
+                                     'truncates, so adding and subtracting it does not give the entry precision back '
+                                     '(53 + 10.5 -> 63, 63 - 10.5 -> 52)' % norm(x.value), line=x.lineno))
